@@ -13,6 +13,22 @@ CHECKS = {
         design="4 C01"),
 }
 
+CHECKS["C02"] = dict(
+    technique="Coq proof (resumability of the decoder, induction over chunks; equality with a declarative stream grammar) + differential correspondence of the real FramedRead/ZmqCodec under enumerated segmentations",
+    text="Theorems in coq/Properties/C02.v: the modelled decoder behind the modelled FramedRead loop yields, for every chunking of every byte stream, the items of the whole stream (C02_chunks_eq_whole, C02_segmentation_independent), and these are the declarative reading of the stream (C02_chunks_eq_spec). All partitions and all streams at once - what enumeration cannot reach. The real codec is run under every single cut, pairs of cuts, byte-at-a-time, 8 KiB reads and random partitions and compared with the extracted model; real sockets are fed handshake + data in one segment.",
+    note="Trusted: kernel, translator, extraction, driver, harness. FramedRead2's loop (third-party, version pinned by Cargo.lock) is modelled by hand; BytesMut growth is abstracted to list append.",
+    design="4 C02")
+CHECKS["C03"] = dict(
+    technique="Coq proof (no modelled panic site reachable, termination measure, held bytes <= received bytes) + structure re-read from source + exhaustive/mutation streams on the real code with measured recursion depth and allocation (debug and release)",
+    text="Theorems in coq/Properties/C03.v: for all byte streams and chunkings the model reaches no panic site (index, slice, get_u*, split_to, unwrap), every decode call terminates, the handshake decision is total, and bytes held never exceed bytes received. The real code is fed an exhaustive small-alphabet sweep, structure-aware mutations (oversized lengths, 2^31..2^64-1 sizes, 1e3-1e5 MORE frames in one read) at all handshake stages and socket types; panics, aborts, hangs, decode nesting depth and allocator peaks are observations with stated bounds.",
+    note="Real stack depth and heap are runtime quantities: measured by the harness (depth hook, counting allocator, child-process crash detection), not proved. usize taken as 64 bit.",
+    design="4 C03")
+CHECKS["C04"] = dict(
+    technique="Coq proof (finite 12x12 sweep lifted by forallb_forall; iff-characterisation of the admission decision; registration multiplicity lemma) + regenerated matrix/name tables + exhaustive attach grid on the real handshake",
+    text="Theorems in coq/Properties/C04.v: compatible = RFC relation on all 144 pairs, symmetric, total; greeting/version/mechanism/READY/identity rules as iff statements; admit_iff over the decoded stream; an admitted identity is in each table exactly once and nobody else is disturbed; a non-admitted connection changes nothing. The matrix, stride, discriminants and name tables are regenerated from src/lib.rs every run. The real peer_connected is run over the 113400-cell grid (thorough; quick: covering sample) with a probe showing registration/inertness.",
+    note="UUIDv4 freshness of auto identities is assumed (Section-free: the fresh key is a parameter of register). Monitor-channel delivery of AcceptFailed is exercised under C20.",
+    design="4 C04")
+
 NOT_YET = {
 }
 
